@@ -134,6 +134,10 @@ def judge(case, obs, resp):
     if not resp["indomain"] or not final_config_ok(case):
         return {"status": "skip", "why": "value does not fit / outside the domain"}
     if not resp["model_holds"]:
+        if resp.get("agree") and not resp["holds"] and "exc" not in obs:
+            # the exact model and the implementation agree and the statement fails for both: a failing input of the
+            # property itself (only possible outside the ranges of the float theorems: NOT_THEOREMS)
+            return {"status": "oracle", "why": f"{'; '.join(resp.get('clauses', []))} (the exact model agrees with the implementation): got {show_obs(obs)}"}
         return {"status": "error", "why": f"the MODEL's cycle violates Spec.C01.holds: {show_obs(resp.get('model'))}"}
     if "exc" in obs:
         return {"status": "oracle", "why": f"write/read cycle raised {obs['exc']}: {obs.get('msg')}"}
@@ -178,7 +182,19 @@ def signature(rec):
     return (rec["resp"].get("clauses") or [rec["verdict"]["why"][:30]])[0][:40]
 
 
+# K2 (KNOWN_FINDINGS.txt): the eight subnormal doubles m * 2^-1074 that an E-notation field of `dec` decimals
+# (dec <= 12) writes more than half a unit of the last decimal away from the value. (dec, m):
+K2_INPUTS = {(1, 21), (2, 203), (4, 20241), (5, 202403), (7, 20240226), (8, 202402254), (11, 202402253308), (12, 2024022533074)}
+
+
 def matches_known(trigger, case):
+    if trigger != "e_subnormal_coarse_grid":
+        return False
+    for fd, v in zip(case["fields"], case["values"]):
+        if fd["k"] == "flt" and codec.dec_str(fd["fmt"]) in "Ee" and isinstance(v, dict) and "f" in v:
+            x = codec.dec_val(v)
+            if x == x and abs(x) < 2.0**-1022 and (fd["dec"], int(abs(x) / 5e-324)) in K2_INPUTS:
+                return True
     return False
 
 
@@ -197,7 +213,7 @@ def ulp_step(x, k):
 
 
 def float_value(rng, dec):
-    fam = rng.choice(["tie", "carry", "magnitude", "bits", "zero_tiny", "plain"])
+    fam = rng.choice(["tie", "carry", "magnitude", "bits", "zero_tiny", "plain", "plain", "subnormal"])
     if fam == "tie":
         d = rng.randrange(0, dec + 2)
         k = rng.randrange(-10 ** rng.randrange(1, 8), 10 ** rng.randrange(1, 8))
@@ -219,6 +235,14 @@ def float_value(rng, dec):
                 break
         if rng.random() < 0.7:  # keep a good share in a printable range
             x = math.ldexp(math.frexp(x)[0], rng.randrange(-40, 60))
+    elif fam == "subnormal":
+        # m * 2^-1074: around a power of ten (where one unit of the last decimal of an E-notation text is a few
+        # subnormal steps: the neighbours of the inputs of known finding K2) or anywhere below 2^52
+        if rng.random() < 0.6:
+            m = int(10 ** rng.randrange(-323, -307) / 5e-324) + rng.randrange(-3, 4)
+        else:
+            m = rng.getrandbits(rng.randrange(1, 53))
+        x = rng.choice([-1, 1]) * max(1, min(m, 2**52 - 1)) * 5e-324
     elif fam == "zero_tiny":
         x = rng.choice([0.0, -0.0, 5e-324, -5e-324, 1e-300, 4.9e-5, -4.9e-5, 0.5, -0.5, 0.05, 0.005, 0.0005])
     else:
@@ -243,7 +267,7 @@ def make_field(rng, pos, fam_out):
     if k == "lit":
         size = rng.randrange(1, 21)
         w = rng.randrange(0, size + 1)
-        alpha = "abcdefXYZ0123456789-_/.,;:éñßÇ" + "   " + ("\xa0\u2003" if rng.random() < 0.1 else "")
+        alpha = "abcdefXYZ0123456789-_/.,;:éñßÇ" + "\"\"'`" + "   " + ("\xa0\u2003" if rng.random() < 0.1 else "")
         s = "".join(rng.choice(alpha) for _ in range(w))
         # missing markers of every sort (a literal column taken from a DataFrame carries its holes as NaN / NaT)
         v = rng.choice([{"s": codec.enc_str(s)}] * 5 + [None, {"s": []}, codec.enc_val(float("nan")), {"nat": True}])
